@@ -129,6 +129,8 @@ class Operator:
         self.memories: Any = None
         self.indexers: Any = None
         self.tearing_down = False
+        self.leftovers_cancelled = False
+        self.t_process_gone: Optional[float] = None
 
     # ------------------------------------------------------------------
     def start(self) -> None:
@@ -199,6 +201,28 @@ class Operator:
             self.exit = (sim.now, 'returned', None)
         self.state = 'exited'
         sim.log('op-exit', self.actor, self.exit[1], self.exit[2])
+        # The process ends like asyncio.run() does: whatever tasks are left get cancelled and are
+        # awaited; the process is gone when none remains (tasks refusing to die keep it hanging).
+        assert self.loop is not None
+        self.loop.call_soon(self._shutdown_leftovers)
+
+    def _shutdown_leftovers(self) -> None:
+        loop = self.loop
+        assert loop is not None
+        left = [t for t in asyncio.all_tasks(loop) if not t.done()]
+        if not left:
+            self.t_process_gone = self.run.sim.now
+            self.run.sim.log('op-gone', self.actor)
+            for s in self.sessions:
+                s.dead = True
+            loop.alive = False
+            return
+        if not self.leftovers_cancelled:
+            self.leftovers_cancelled = True
+            self.run.sim.log('op-leftovers', self.actor, len(left))
+            for t in left:
+                t.cancel()
+        loop.call_later(0.01, self._shutdown_leftovers)
 
     def new_session(self) -> net.FakeSession:
         self.logins += 1
